@@ -6,6 +6,9 @@ Writes <seeded-dir>/result.json = {check id: {"exit": rc, "violation": bool, "si
 The patch is never committed; /repo is restored with `git checkout -- .` even when a check crashes."""
 import json, os, subprocess, sys, time
 
+# the checks of the tree this script lives in (a git worktree of /verif at a commit works too); the patch always goes to /repo
+ROOT = os.path.dirname(os.path.dirname(os.path.abspath(__file__)))
+
 def main():
     args = sys.argv[1:]
     tier, seed = "quick", None
@@ -29,7 +32,7 @@ def main():
             if seed:
                 env["VERIF_SEED"] = seed
             t0 = time.time()
-            p = subprocess.run(["/verif/check", pid, "--tier", tier], capture_output=True, text=True, env=env, cwd="/verif")
+            p = subprocess.run([os.path.join(ROOT, "check"), pid, "--tier", tier], capture_output=True, text=True, env=env, cwd=ROOT)
             out = p.stdout + p.stderr
             sigs = [l.strip() for l in out.splitlines() if l.strip().startswith("violation ")]
             results[pid] = {"exit": p.returncode, "violation": "VIOLATION property=" in out, "signatures": [s[:300] for s in sigs[:12]],
@@ -43,13 +46,13 @@ def main():
         subprocess.run(["git", "-C", "/repo", "checkout", "--", "."], check=True)
         # rebuild from the restored tree so that a later `--no-build` run does not use binaries of the changed tree
         for pid in ids:
-            subprocess.run(["/verif/check", pid, "--build-only"], capture_output=True, cwd="/verif")
+            subprocess.run([os.path.join(ROOT, "check"), pid, "--build-only"], capture_output=True, cwd=ROOT)
     rp = os.path.join(d, "result.json")
     old = json.load(open(rp)) if os.path.exists(rp) else {}
     old.update(results)
     json.dump(old, open(rp, "w"), indent=1, sort_keys=True)
     # evidence and replays written by these runs describe the changed tree: drop them (evidence is restored by the next clean run)
-    subprocess.run(["git", "-C", "/verif", "checkout", "--", "evidence"], check=False)
+    subprocess.run(["git", "-C", ROOT, "checkout", "--", "evidence"], check=False)
 
 if __name__ == "__main__":
     main()
